@@ -250,6 +250,35 @@ func (e *Engine) declOnce(name, sort string) {
 	}
 }
 
+// redeclare rebuilds the set of declared names from the declaration list (after
+// a rollback).
+func (e *Engine) redeclare() {
+	e.declared = map[string]bool{}
+	for _, d := range e.decls {
+		if strings.HasPrefix(d, "(declare-const ") {
+			rest := d[len("(declare-const "):]
+			if strings.HasPrefix(rest, "|") {
+				if j := strings.Index(rest[1:], "|"); j >= 0 {
+					e.declared[rest[:j+2]] = true
+				}
+			}
+		} else if strings.HasPrefix(d, "(declare-fun ") {
+			fs := strings.Fields(d[len("(declare-fun "):])
+			if len(fs) > 0 {
+				e.declared[fs[0]] = true
+			}
+		}
+	}
+	// string literals interned during the failed attempt
+	for s, t := range e.strLits {
+		base := t[len("(mk_slice "):]
+		base = base[:strings.Index(base, " ")]
+		if !e.declared[base] {
+			delete(e.strLits, s)
+		}
+	}
+}
+
 func epochTerm(n string, epoch int) string {
 	if epoch == 0 {
 		return "|" + n + "@pre|"
